@@ -4,7 +4,7 @@ import re
 
 from ..alg import Rat
 from ..loader import shape_error, anchor_error, mangle
-from ..sx import Walker, State
+from ..sx import Walker, State, Event
 from ..effects import Effects
 from ..util import body_nodocstring, names_stored, unparse
 
@@ -94,52 +94,98 @@ def rule_P2(ctx):
     dels = [e for e in evs if e.kind == 'del']
     d_map = [e for e in dels if e.name == DICO]
     d_col = [e for e in dels if 'features' in e.name]
+    byval = [e for e in evs if e.kind == 'call' and e.name == 'remove' and 'features' in vr(e.recv)]
+    for e in byval:
+        ctx.violation('C01.P2', f, 'the column is deleted by position in every observation',
+                      {'operation': repr(e), 'why': 'list.remove deletes the first equal value, not the column registered under the name: '
+                       'an observation holding the same value in an earlier column loses that one instead'}, node=e.node, key='by-value')
+    if byval:
+        return
+    popped = [e for e in evs if e.kind == 'call' and e.name == 'pop' and len(e.args) == 1]
+    if len(d_map) != 1 and any(vr(e.recv) == DICO for e in popped):
+        pm = [e for e in popped if vr(e.recv) == DICO][0]
+        d_map = [Event('del', name=DICO, index=pm.args[0], node=pm.node, conds=pm.conds, loops=pm.loops, seq=pm.seq)]
+    if len(d_col) != 1 and any('features' in vr(e.recv) for e in popped):
+        pc = [e for e in popped if 'features' in vr(e.recv)][0]
+        d_col = [Event('del', name=vr(pc.recv), index=pc.args[0], node=pc.node, conds=pc.conds, loops=pc.loops, seq=pc.seq)]
     if len(d_map) != 1 or len(d_col) != 1:
         raise shape_error('removeAnalyticalFeature: deletion of the name / of the column not found', f.loc())
     col = d_col[0].index
-    ctx.check(vr(d_map[0].index) == name and vr(col) == '%s[%s]' % (DICO, name), 'C01.P2', f,
+    regd = ('%s[%s]' % (DICO, name), '%s.pop(%s)' % (DICO, name))
+    ctx.check(vr(d_map[0].index) == name and vr(col) in regd, 'C01.P2', f,
               'the column deleted everywhere is the one registered under the name being removed',
               witness={'column deleted': vr(col), 'name unregistered': vr(d_map[0].index)}, node=d_col[0].node, key='column')
     # the column number is read before the name is unregistered
-    rd = [e for e in evs if e.kind == 'assign' and vr(e.value) == '%s[%s]' % (DICO, name)]
-    ctx.check(bool(rd) and all(e.seq < d_map[0].seq for e in rd), 'C01.P2', f, 'the column number is read before the name is unregistered',
+    rd = [e for e in evs if e.kind == 'assign' and vr(e.value) in regd]
+    ctx.check(bool(rd) and all(e.seq < d_map[0].seq or vr(e.value) == regd[1] for e in rd), 'C01.P2', f, 'the column number is read before the name is unregistered',
               witness={}, node=f.node, key='read-first')
-    lp = [e for e in evs if e.kind == 'loop' and e.seq < d_col[0].seq]
-    okl = any(l.value.get('range') is not None and vr(l.value['range'][0]) == '0' and vr(l.value['range'][1]) == 'self.size()' for l in lp)
-    ctx.check(okl and re.match(r'^self\.getObs\(\w+\)\.features$', d_col[0].name) is not None, 'C01.P2', f, 'the column is deleted in every observation',
-              witness={'deleted from': d_col[0].name}, node=d_col[0].node, key='all-obs')
-    # gap closing: for all remaining keys, columns above the removed one move down by exactly one
-    shift = [s for s in body if isinstance(s, ast.For) and any(isinstance(n, (ast.AugAssign, ast.Assign)) and 'analyticalFeaturesDico[' in unparse(n.target if isinstance(n, ast.AugAssign) else n.targets[0]) for n in ast.walk(s))]
-    if len(shift) != 1:
-        ctx.violation('C01.P2', f, 'after a deletion the larger column numbers are shifted down by one',
-                      {'why': 'no shifting loop: the names registered after the removed one now point one column too far'}, node=f.node, key='no-shift')
-        return
-    sl = shift[0]
-    kv = sl.target.id
-    ws = Walker(f, loop_mode='skip')
-    it = ws.ex(sl.iter, State({'keys': Rat.atom('%s.keys()' % DICO)}))
-    ctx.check(DICO in vr(it) and ('keys' in vr(it) or vr(it) == DICO), 'C01.P2', f, 'every remaining name is examined', witness={'iterates': vr(it)}, node=sl, key='all-keys')
-    idn = rd[0].name if rd else 'idAF'
-    souts = list(ws.run(sl.body, State({kv: Rat.atom('K'), idn: Rat.atom('REMOVED')})))
-    n_dec = 0
-    for so in souts:
-        st = [e for e in so.state.events if e.kind == 'store' and e.name == DICO]
-        conds = [cj for c, _ in so.state.conds for cj in c.conjuncts()]
-        cur = '%s[K]' % DICO
-        above = any(cj.kind == 'cmp' and cj.op in ('<', '<=') and vr(cj.a) == 'REMOVED' and vr(cj.b) == cur for cj in conds)
-        below = any(cj.kind == 'cmp' and cj.op in ('<', '<=') and vr(cj.a) == cur and vr(cj.b) == 'REMOVED' for cj in conds)
-        if st:
-            n_dec += 1
-            e = st[0]
-            okd = e.aug == 'Sub' and isinstance(e.value, Rat) and e.value.isconst() and e.value.constval() == 1 and vr(e.index) == 'K'
-            if e.aug is None and isinstance(e.value, Rat):
-                okd = ws.rel.is_zero(e.value - (Rat.atom(cur) - Rat.const(1))) and vr(e.index) == 'K'
-            ctx.check(okd and above, 'C01.P2', f, 'exactly the columns above the removed one are decremented, by exactly one',
-                      witness={'store': repr(e), 'guards': [repr(cj) for cj in conds]}, node=sl, key='decrement')
+    lp = d_col[0].loops[-1] if d_col[0].loops else None
+    okl = False
+    if lp is not None and lp['kind'] == 'for' and isinstance(lp['node'].target, ast.Name):
+        lv = lp['node'].target.id
+        if lp.get('range') is not None:
+            okl = vr(lp['range'][0]) == '0' and vr(lp['range'][1]) in ('self.size()', 'len(self)', 'len(self.__POINTS)') and vr(lp['range'][2]) == '1' and \
+                d_col[0].name in ('self.getObs(%s).features' % lv, 'self.__POINTS[%s].features' % lv, 'self[%s].features' % lv)
         else:
-            ctx.check(below or not above, 'C01.P2', f, 'columns below the removed one keep their number', witness={'guards': [repr(cj) for cj in conds]}, node=sl, key='keep')
-    if n_dec == 0:
-        ctx.violation('C01.P2', f, 'after a deletion the larger column numbers are shifted down by one', {'why': 'the loop never decrements'}, node=sl, key='no-dec')
+            okl = vr(lp['iter']) in ('self.__POINTS', 'self', 'self.getObsList()') and d_col[0].name == lv + '.features'
+    ctx.check(okl, 'C01.P2', f, 'the column is deleted in every observation',
+              witness={'deleted from': d_col[0].name, 'loop': unparse(lp['node'].iter) if lp else None}, node=d_col[0].node, key='all-obs')
+    # gap closing: for all remaining keys, columns above the removed one move down by exactly one
+    removed = vr(col)
+    stores = [e for e in evs if e.kind == 'store' and e.name == DICO and e.seq > d_map[0].seq]
+    if not stores:
+        ctx.violation('C01.P2', f, 'after a deletion the larger column numbers are shifted down by one',
+                      {'why': 'no store into the name -> column map after the deletion: the names registered after the removed one now point one column too far'},
+                      node=f.node, key='no-shift')
+        return
+    for e in stores:
+        lp = e.loops[-1] if e.loops else None
+        if lp is None or lp['kind'] != 'for' or not isinstance(lp['node'].target, ast.Name):
+            raise shape_error('removeAnalyticalFeature: store into the map outside a for loop over its names', f.loc(e.node))
+        kv = lp['node'].target.id
+        it = vr(lp['iter']) if lp.get('iter') is not None else ''
+        ctx.check(it in (DICO, '%s.keys()' % DICO, 'list(%s)' % DICO, 'list(%s.keys())' % DICO), 'C01.P2', f, 'every remaining name is examined',
+                  witness={'iterates': it}, node=lp['node'], key='all-keys')
+        guards = [cj for c, _ in e.conds for cj in c.conjuncts()]
+        cur = '%s[%s]' % (DICO, kv)
+        above = any(cj.kind == 'cmp' and cj.op in ('<', '<=') and vr(cj.a) == removed and vr(cj.b) == cur for cj in guards)
+        okd = e.aug == 'Sub' and isinstance(e.value, Rat) and e.value.isconst() and e.value.constval() == 1 and vr(e.index) == kv
+        if e.aug is None and isinstance(e.value, Rat):
+            okd = w.rel.is_zero(e.value - (Rat.atom(cur) - Rat.const(1))) and vr(e.index) == kv
+        ctx.check(okd and above, 'C01.P2', f, 'exactly the columns above the removed one are decremented, by exactly one',
+                  witness={'store': repr(e), 'guards': [repr(cj) for cj in guards], 'removed column': removed}, node=e.node, key='decrement')
+
+
+def _size_guards(ctx):
+    """create / update refuse a track only when it has no observation: the API works on every track of size >= 1"""
+    import operator as _op
+    ops = {'<': _op.lt, '<=': _op.le, '==': _op.eq, '!=': _op.ne}
+    for mname in ('createAnalyticalFeature', 'updateAnalyticalFeature'):
+        f = ctx.prog.func(TRACK + '.' + mname)
+        w = Walker(f, loop_mode='skip')
+        n = 0
+        for o in w.run(body_nodocstring(f), State()):
+            if o.kind != 'raise':
+                continue
+            for c, cn in o.state.conds:
+                for cj in c.conjuncts():
+                    if cj.kind != 'cmp' or not isinstance(cj.a, Rat) or not isinstance(cj.b, Rat):
+                        continue
+                    d = cj.a - cj.b
+                    if set(d.atoms()) != {'self.size()'} or cj.op not in ops:
+                        continue
+                    n += 1
+                    refused = []
+                    for size in (1, 2, 3, 10):
+                        v = d.subst('self.size()', Rat.const(size))
+                        if v.isconst() and ops[cj.op](v.constval(), 0):
+                            refused.append(size)
+                    ctx.check(not refused, 'C01.P3', f, '%s refuses a track only when it has no observation' % mname,
+                              witness={'guard of the raise': repr(cj), 'track sizes refused': refused,
+                                       'why': 'on such a track the call raises and the values previously written stay: reading the name does not return what was last written'},
+                              node=cn, key='size-guard:' + mname)
+        if n == 0:
+            ctx.ok('C01.P3', f, '%s has no guard on the number of observations' % mname, node=f.node)
 
 
 def rule_P3(ctx):
@@ -163,6 +209,7 @@ def rule_P3(ctx):
                     ctx.violation('C01.P3', f, '%s never changes the number of feature values of an observation' % mname, {'operation': repr(e)}, node=e.node, key='len:' + mname)
         if n == 0:
             raise shape_error('%s: no store into Obs.features found' % mname, f.loc())
+    _size_guards(ctx)
     # bracket assignment: create-or-update
     f = ctx.prog.func(TRACK + '.__setitem__')
     t = unparse(f.node)
@@ -246,6 +293,81 @@ def _on_fresh(eff, q, node):
     return False
 
 
+_VOID_OUT = {'UnaryVoidOperator': 2, 'BinaryVoidOperator': 3, 'ScalarVoidOperator': 3}    # position of the output name in Track.operate(op, a1, a2, a3)
+
+
+def _operator_kinds(ctx):
+    """registry name (Operator.X) -> abstract kind of its class"""
+    reg = ctx.prog.cls(OPS + '.Operator')
+    kinds = {}
+    for name, val in reg.consts.items():
+        if isinstance(val, ast.Call) and isinstance(val.func, ast.Name):
+            c = ctx.prog.classes.get(OPS + '.' + val.func.id)
+            seen = 0
+            while c is not None and seen < 5:
+                seen += 1
+                b = [x.split('.')[-1] for x in c.bases]
+                k = [x for x in b if x in ('UnaryOperator', 'BinaryOperator', 'ScalarOperator') or x in _VOID_OUT]
+                if k:
+                    kinds[name] = k[0]
+                    break
+                c = ctx.prog.classes.get(OPS + '.' + b[0]) if b else None
+    if len(kinds) < 70:
+        raise shape_error('operator registry: only %d entries resolved' % len(kinds))
+    # the dispatch of Track.operate gives a void operator its input as output when none is passed
+    f = ctx.prog.func(TRACK + '.operate')
+    t = unparse(f.node)
+    ctx.recognise(all(('isinstance(operator, %s)' % k) in t for k in _VOID_OUT) and 'arg2 = arg1' in t and 'arg3 = arg1' in t, 'C01.F', f,
+                  'Track.operate dispatches on the operator kind; a void operator called without output name works in place', node=f.node)
+    return kinds
+
+
+def _outputs_only(ctx):
+    """inside an operator, the only listed feature written is the one named by af_output (or a private '#' scratch name)"""
+    kinds = _operator_kinds(ctx)
+    n_bad = 0
+    n_sites = 0
+    for q, fi in sorted(ctx.prog.functions.items()):
+        if not (q.startswith(OPS + '.') and fi.name == 'execute' and fi.cls is not None):
+            continue
+        outp = {p for p in fi.params if p.startswith('af_output')}
+        for c in ast.walk(fi.node):
+            written = None
+            how = None
+            if isinstance(c, ast.Call):
+                fn = getattr(c.func, 'attr', None) or getattr(c.func, 'id', None)
+                if fn in ('operate', 'op') and c.args and unparse(c.args[0]).startswith('Operator.'):
+                    opn = unparse(c.args[0])[len('Operator.'):]
+                    kind = kinds.get(opn)
+                    if kind is None:
+                        raise shape_error('operator %s not in the registry' % opn, fi.loc(c))
+                    if kind in _VOID_OUT:
+                        pos = _VOID_OUT[kind]
+                        written = c.args[pos] if len(c.args) > pos else c.args[1]
+                        how = 'Track.operate(Operator.%s, ...) (%s%s)' % (opn, kind, '' if len(c.args) > pos else ', no output name: in place')
+                elif fn in ('createAnalyticalFeature', 'updateAnalyticalFeature', 'setObsAnalyticalFeature', 'removeAnalyticalFeature') and c.args:
+                    written, how = c.args[0], fn
+                elif fn == 'addListToAF' and len(c.args) >= 2:
+                    written, how = c.args[1], fn
+            elif isinstance(c, ast.Assign) and isinstance(c.targets[0], ast.Subscript) and unparse(c.targets[0].value) == 'track':
+                sl = c.targets[0].slice
+                written, how = (sl.elts[0] if isinstance(sl, ast.Tuple) else sl), 'track[name] = ...'
+            if written is None:
+                continue
+            n_sites += 1
+            scratch = isinstance(written, ast.Constant) and isinstance(written.value, str) and written.value.startswith('#')
+            ok = scratch or (isinstance(written, ast.Name) and written.id in outp)
+            if not ok:
+                n_bad += 1
+            ctx.check(ok, 'C01.F', fi, 'the only feature an operator writes is the one named by its output parameter',
+                      witness={'written': unparse(written), 'through': how, 'output parameter': sorted(outp),
+                               'why': 'the values read under another name (typically the input feature) change as a side effect'},
+                      node=c, key='out-only:%s:%s' % (fi.cls.name, unparse(written)))
+    if n_sites < 100:
+        raise shape_error('only %d feature-writing sites found in the operators' % n_sites)
+    return n_bad
+
+
 def rule_F(ctx):
     """C01.F operators and AF methods write features only; scratch names are private"""
     eff = _effects(ctx)
@@ -286,6 +408,7 @@ def rule_F(ctx):
                 ctx.check(ok, 'C01.F', fi, "a scratch feature used by an operator has a private '#' name and is removed before the operator returns",
                           witness={'scratch name': nm, 'removed before returning': sorted(removed),
                                    'why': 'a user feature of that name is overwritten, and the scratch column stays listed'}, node=c, key='scratch:%s:%s' % (fi.cls.name, nm))
+    bad_total += _outputs_only(ctx)
     if n_ops < 80:
         raise shape_error('only %d operator classes found (84 expected)' % n_ops)
     if bad_total == 0:
